@@ -30,7 +30,8 @@ RULE = ('cap/floor: seed-chosen (curve kind x value date x start x tenor x frequ
         '(curve x settle x exercise x maturity x fixed frequency/day count x float frequency/day count x notional x strike) '
         'x (Black, shifted Black, SABR, shifted SABR, HW-Jamshidian, BK tree, BDT tree), payer with receiver and with '
         'IborSwap on the same dates. bond option: (curve x bond x expiry strictly between coupon dates x strikes) x (HW '
-        'expiry-tree / expiry-only / Jamshidian, BK, BDT). bermudan: bermudan vs european, pay and receive, three trees. '
+        'expiry-tree / expiry-only / Jamshidian, BK, BDT). bermudan: bermudan vs european, pay and receive, three trees. re-use: every product object (cap/floor x 6 models, '
+        'swaption x 7, bond option x 3, bermudan x 3) valued on (date A, curve A) and then on (date B, curve B) vs a fresh object on B. '
         'evaluations = oracle clauses evaluated; non-trivial = clauses on a case with positive volatility and a strike '
         'within a factor 3 of the forward (both legs have time value). All cases distinct by construction (continuous '
         'parameters).')
@@ -817,8 +818,117 @@ def oracle_bermudan(case, curve=None):
     return out
 
 
+
+# ------------------------------------------------------------------------------------------ re-use of product objects
+def _snapshot(kind, objs, vals):
+    """everything a valuation leaves on the objects that the property observes"""
+    snap = {'values': [float(v) for v in vals]}
+    if kind == 'capfloor':
+        for nm, o in zip(('cap', 'floor'), objs):
+            for tab in ('cap_floor_let_values', 'cap_floor_let_alphas', 'cap_floor_let_fwd_rates', 'cap_floor_let_intrinsic',
+                        'cap_floor_let_dfs', 'cap_floor_pv'):
+                snap[f'{nm}.{tab}'] = [float(x) for x in getattr(o, tab)]
+            snap[f'{nm}.dates'] = [dmy(d) for d in o.capFloorLetDates]
+    elif kind == 'swaption':
+        for nm, o in zip(('payer', 'receiver'), objs):
+            snap[f'{nm}.tables'] = [float(o.pv01), float(o.fwd_swap_rate), float(o.forward_df)]
+            snap[f'{nm}.payments'] = [float(x) for x in o.underlying_swap.fixed_leg.payments]
+    elif kind == 'bermudan':
+        for i, o in enumerate(objs):
+            snap[f'obj{i}.tables'] = [float(o.pv01)] + [float(x) for x in o.cpn_times] + [float(x) for x in o.cpn_flows]
+    return snap
+
+
+def _reuse_build(case):
+    """(objects, value function) of the product of a re-use case; `value(objs, vd, curve, model)` -> list of values"""
+    kind = case['product']
+    if kind == 'capfloor':
+        _, start, args, kw = capfloor_objects(case)
+        objs = [E.IborCapFloor(args[0], args[1], tp, case['strike'], **kw) for tp in (E.FinCapFloorTypes.CAP, E.FinCapFloorTypes.FLOOR)]
+    elif kind == 'swaption':
+        settle, ex, mat = date_of(case['settle_dt']), date_of(case['exercise_dt']), date_of(case['maturity_dt'])
+        ff, fdc = E.FrequencyTypes[case['fixed_freq']], E.DayCountTypes[case['fixed_dc']]
+        objs = [E.IborSwaption(settle, ex, mat, lt, case['strike'], ff, fdc, **swaption_kw(case)) for lt in (E.SwapTypes.PAY, E.SwapTypes.RECEIVE)]
+    elif kind == 'bondoption':
+        bond = bond_of(case)
+        exp = date_of(case['expiry_dt'])
+        k = case['strikes'][2]
+        objs = [E.BondOption(bond, exp, k, ot) for ot in (E.OptionTypes.EUROPEAN_CALL, E.OptionTypes.EUROPEAN_PUT,
+                                                           E.OptionTypes.AMERICAN_CALL, E.OptionTypes.AMERICAN_PUT)]
+    elif kind == 'bermudan':
+        settle, ex, mat = date_of(case['settle_dt']), date_of(case['exercise_dt']), date_of(case['maturity_dt'])
+        ff, fdc = E.FrequencyTypes[case['fixed_freq']], E.DayCountTypes[case['fixed_dc']]
+        objs = [E.IborBermudanSwaption(settle, ex, mat, lt, et, case['strike'], ff, fdc, case['notional'])
+                for lt in (E.SwapTypes.PAY, E.SwapTypes.RECEIVE) for et in (E.FinExerciseTypes.EUROPEAN, E.FinExerciseTypes.BERMUDAN)]
+    else:
+        raise ValueError(kind)
+
+    def value(objs, vd, curve, model):
+        with warnings.catch_warnings():
+            warnings.simplefilter('ignore')
+            return [float(o.value(vd, curve, model)) for o in objs]
+    return objs, value
+
+
+def oracle_reuse(case):
+    """A product object is a contract, not a valuation: valued on (date A, curve A) and then on (date B, curve B), the SAME
+    object must report on B exactly what a freshly built object reports on B (value and every per-caplet / per-trade
+    table), and parity must hold on the second valuation too."""
+    out = Fails()
+    kind = case['product']
+    spec = case['model']
+    mk = spec['kind']
+    vda, vdb = date_of(case['value_dt']), date_of(case['value_dt_b'])
+    ca, cb = rebuild_curve(case['curve'], vda), rebuild_curve(case['curve_b'], vdb)
+    used, value = _reuse_build(case)
+    m_used = make_model(spec)
+    va = value(used, vda, ca, m_used)                  # first valuation (leaves its traces on the objects)
+    vb = value(used, vdb, cb, m_used)                  # second valuation of the same objects (and the same model object)
+    snap_used = _snapshot(kind, used, vb)
+    fresh, _ = _reuse_build(case)
+    vf = value(fresh, vdb, cb, make_model(spec))
+    snap_fresh = _snapshot(kind, fresh, vf)
+    N = case.get('notional', 100.0)
+    for key in snap_fresh:
+        a, b = snap_used.get(key), snap_fresh[key]
+        if a is None or len(a) != len(b):
+            out.add('reuse-equals-fresh', f'{kind}[{mk}]: {key} has a different shape on a re-used object', key=key, reused=a, fresh=b)
+            continue
+        for i, (x, y) in enumerate(zip(a, b)):
+            same = (x == y) if not isinstance(x, float) else close(x, y, rtol=1e-11, atol=1e-13 * max(N, 1.0))
+            if not same:
+                out.add('reuse-equals-fresh', f'{kind}[{mk}]: {key}[{i}] = {x!r} on an object first valued on {case["value_dt"]} / curve A, '
+                        f'{y!r} on a fresh object (both valued on {case["value_dt_b"]} / curve B)', key=key, index=i, reused=x, fresh=y,
+                        first_valuation=va)
+                break
+    # ---- parity on the second valuation (Black-type models; the short-rate models are compared with fresh objects above
+    #      and have their own parity oracles with the listed time-axis findings)
+    if mk in BLACKLIKE and all(math.isfinite(x) for x in vb):
+        if kind == 'capfloor':
+            dts = used[0].capFloorLetDates
+            rows = strip_reference(cb, dts, E.DayCountTypes[case['dc']], case['strike'], N, case.get('last_fixing'))
+            strip = sum(r['pv'] for r in rows)
+            scale = N * sum(r['alpha'] * r['df'] * max(abs(r['fwd']), case['strike'], 1e-4) for r in rows)
+            tol = 1e-9 * scale + 1e-12 * N + (1.01e-10 * N * sum(r['alpha'] * r['df'] for r in rows) if case['strike'] == 0.0 else 0.0)
+            if abs(vb[0] - vb[1] - strip) > tol:
+                out.add('reuse-parity', f'capfloor[{mk}]: second valuation of the same objects: cap - floor = {vb[0] - vb[1]!r}, strip of '
+                        f'forward-rate payments on curve B = {strip!r} (first caplet forward in the table {used[0].cap_floor_let_fwd_rates[1]!r}, '
+                        f'curve B gives {rows[0]["fwd"]!r})', cap=vb[0], floor=vb[1], strip=strip)
+        elif kind == 'swaption':
+            swp, alphas, pays = fixed_leg_reference(case, cb, case['strike'])
+            with warnings.catch_warnings():
+                warnings.simplefilter('ignore')
+                ref = float(swp.value(vdb, cb, cb)) / float(cb.df(date_of(case['settle_dt'])))
+            A = sum(a * float(cb.df(d)) for a, d in zip(alphas, pays))
+            if abs(vb[0] - vb[1] - ref) > 1e-9 * N * A * max(case['strike'], 1e-3) + 1e-9 * abs(ref):
+                out.add('reuse-parity', f'swaption[{mk}]: second valuation of the same objects: payer - receiver = {vb[0] - vb[1]!r}, forward-starting '
+                        f'IborSwap on curve B = {ref!r}', payer=vb[0], receiver=vb[1], swap=ref)
+    return out
+
+
 ORACLES = {'capfloor': oracle_capfloor, 'capfloor_monotone': oracle_capfloor_monotone, 'swaption': oracle_swaption,
-           'swaption_monotone': oracle_swaption_monotone, 'bondoption': oracle_bondoption, 'bermudan': oracle_bermudan}
+           'swaption_monotone': oracle_swaption_monotone, 'bondoption': oracle_bondoption, 'bermudan': oracle_bermudan,
+           'reuse': oracle_reuse}
 
 
 def report(ctx, comp, case, fails):
@@ -931,6 +1041,34 @@ def gen_bermudan(rng, ckind, mkind):
     lvl = level_of(curve, vd, 4)
     case.update({'strike': lvl * rng.choice([0.7, 1.0, 1.3]), 'model': gen_model(rng, mkind, lvl)})
     return case, curve
+
+
+def gen_reuse(rng, product, mkind):
+    ckind = rng.choice(['flat', 'sloped', 'ibor'])
+    if product == 'capfloor':
+        case, _ = gen_capfloor(rng, ckind, mkind)
+    elif product == 'swaption':
+        case, _ = gen_swaption(rng, ckind, mkind)
+    elif product == 'bondoption':
+        case, _ = gen_bondoption(rng, ckind, mkind, 'tree' if mkind == 'hw' else None)
+        if case is None:
+            return None
+    else:
+        case, _ = gen_bermudan(rng, ckind, mkind)
+    vda = date_of(case['value_dt'])
+    # the other scenario: another curve, on the same date or on an earlier valuation date
+    shift = rng.choice([0, 0, 0, 1, 7, 30] if product != 'bondoption' else [0, 0, 1, 7])
+    vdo = vda.add_days(-shift)
+    desc_o, _ = make_curve(rng, vdo, rng.choice(['flat', 'sloped', 'ibor']))
+    case['product'] = product
+    if rng.random() < 0.5:
+        case['value_dt_b'], case['curve_b'] = dmy(vdo), desc_o                       # second valuation: other curve (earlier date)
+    else:
+        case['value_dt_b'], case['curve_b'] = case['value_dt'], case['curve']        # second valuation back on the contract's own date
+        case['value_dt'], case['curve'] = dmy(vdo), desc_o
+    if product == 'capfloor':
+        case['last_fixing'] = None if rng.random() < 0.8 else case.get('last_fixing')
+    return case
 
 
 def short(case):
@@ -1145,6 +1283,27 @@ def run(ctx):
             report(ctx, 'bermudan', case, fails)
             ctx.count('bermudan-oracles/' + mkind, 6, 6, sample={'model': case['model'], 'curve': ckind, 'exercise': case['exercise_dt'],
                                                                  'maturity': case['maturity_dt'], 'strike': case['strike']})
+    # ---- re-use: the same product objects on a second (date, curve) vs fresh objects
+    rng = ctx.rng('reuse')
+    nru = 6 if quick else 40
+    plan = [('capfloor', m) for m in ('black', 'shifted', 'bachelier', 'sabr', 'sabrshifted', 'hw')] + \
+           [('swaption', m) for m in ('black', 'shifted', 'sabr', 'sabrshifted', 'hw', 'bk', 'bdt')] + \
+           [('bondoption', m) for m in TREES] + [('bermudan', m) for m in TREES]
+    for it in range(nru):
+        for product, mkind in plan:
+            if product in ('bondoption', 'bermudan') and it % 2:
+                continue
+            case = gen_reuse(rng, product, mkind)
+            if case is None:
+                continue
+            fails = guarded('reuse', case, lambda: oracle_reuse(case))
+            if fails is None:
+                continue
+            report(ctx, 'reuse', case, fails)
+            hist[f'reuse/{product}/{mkind}'] = hist.get(f'reuse/{product}/{mkind}', 0) + 1
+            ctx.count(f'reuse-oracles/{product}', 8, 8, sample={'product': product, 'model': case['model'], 'value_dt': case['value_dt'],
+                                                                'value_dt_b': case['value_dt_b'], 'curve_a': case['curve']['kind'],
+                                                                'curve_b': case['curve_b']['kind']})
     ctx.cov['histogram'] = hist
     if rejected:
         ctx.notes.append(f'{len(rejected)} BK/BDT tree builds were rejected by the library (drift search gave up; C03), e.g. {rejected[0][2]} on {rejected[0][1][:200]}')
@@ -1156,7 +1315,7 @@ def run(ctx):
         'the normal cdf enters the parity theorems only through Phi(x) + Phi(-x) = 1 at the arguments that occur (true for the coded Hull polynomial N at x != 0, and for any exact cdf)',
         'SABR / shifted SABR: the Black volatility returned by the (njit) Hagan formula is a parameter of the model; parity needs only that both legs use the same number',
         'Jamshidian root r*: parameter with the postcondition "bond price at r* = strike + accrued"; BK/BDT drift searches: C03',
-        'convergence of tree prices to the curve-implied forward is validated numerically only: tolerance (coupon + rate bound) x dt x 0.75 x face (bond options), '
+        'convergence of tree prices to the curve-implied forward is validated numerically only: tolerance (coupon + rate bound) x dt x 2.0 x face (bond options), '
         '(rate bound + K) x dt x notional (swaption trees): the expiry and the coupons are moved to the nearest tree date (|shift| <= dt/2)',
         'schedule generation (C16), day-count fractions (C15) and curve interpolation (C02) are inputs of the model (glue)',
     ]
